@@ -180,7 +180,7 @@ def body_multiget_menu(pre, i1, dup):
         prefix, card, wsgi = ctx.PART
         P = prefix.rstrip("/")
         S = {"a.ics": b"xa"}
-        A = {"c.vcf": b"v1"}
+        A = {"c.vcf": b"v1", "d.vcf": b"v2"}
         mweb.fresh_world(S, A)
         app = mweb.make_app()
 
@@ -223,8 +223,11 @@ def body_multiget_menu(pre, i1, dup):
         ns = CARDNS if card else CALNS
         dataname = "{%s}%s-data" % (ns, "address" if card else "calendar")
         want_ct = "text/vcard" if card else "text/calendar"
-        for i2 in range(len(menu)):
-            hrefs = [menu[i1], menu[i2]] + ([menu[i1]] if dup else [])
+        # pairs over the whole menu, then triples that leave a collection and come back to it (A, B, A): the answer
+        # for an href never depends on the hrefs requested with it
+        T = [menu[0], menu[1], menu[3], P + mweb.AB + "/d.vcf"]
+        for hrefs in ([[menu[i1], menu[i2]] + ([menu[i1]] if dup else []) for i2 in range(len(menu))] +
+                      ([[menu[i1], x, y] for x in T for y in T] if not dup else [])):
             el = Wd.ET.Element("{%s}%s-multiget" % (ns, "addressbook" if card else "calendar"))
             prop = Wd.ET.SubElement(el, "{DAV:}prop")
             Wd.ET.SubElement(prop, "{DAV:}getetag")
